@@ -193,7 +193,10 @@ CrashEquiv(e) ==
 \* fails depends on the schedule (see StaleDefinerConflict), not on watching versus restarting
 WatchDiff(e) ==
   (IF e.a.rc # e.b.rc THEN {<<"return_code_differs", <<e.a.rc, e.b.rc>>>>} ELSE {})
-  \cup CanonDiff(e.a.state, e.a.disk, e.b.state, e.b.disk)
+  \* in an incomplete build, what a PENDING step amended before the build stopped (and whether it ran at
+  \* all) depends on the schedule of that build, not on watching versus restarting
+  \cup {c \in CanonDiff(e.a.state, e.a.disk, e.b.state, e.b.disk) :
+          ~(c[1] = "dynamic_memory_of_pending_step_differs" /\ ~Success(e.a.rc) /\ ~Success(e.b.rc))}
   \cup {<<"disk_differs", p>> : p \in {p \in (DOMAIN e.a.disk.files) \cup (DOMAIN e.b.disk.files) :
             DiskContent(e.a.disk, p) # DiskContent(e.b.disk, p)}}
 WatchEqRestart(e) ==
